@@ -20,7 +20,8 @@ descriptor does not decide itself is a parameter (`World`):
                  `bump` operation advances): a value or a raised exception class
 * `preparer`   — the attribute's `_prepare_<attr>` method: a value, or a raised exception class
 * `conforms`   — `check_type(value, attr_spec.type)`
-* `construct`  — `attr_spec.constructor()` (what `mutate_value` builds for `MISSING`)
+* `construct`  — `attr_spec.constructor()` (what `mutate_value` builds for `MISSING`): a value, or the exception
+                 the annotation's constructor raises (`typing.Union()` / `typing.Any()` raise TypeError)
 * `missing/empty/unchanged` — the three sentinels
 
 The *specification* state machine (`Spec`, ghost state `override`/`cached`)
@@ -36,7 +37,7 @@ structure World (Val : Type) where
   getter    : Nat → Except Err Val
   preparer  : Val → Except Err Val
   conforms  : Val → Bool
-  construct : Val
+  construct : Except Err Val
   missing   : Val
   empty     : Val
   unchanged : Val
@@ -98,14 +99,17 @@ def isSentinel (w : World Val) (v : Val) : Bool :=
 * `if new_value is not MISSING and new_value is not EMPTY: value = new_value`
   `elif not replace: value = old_value; prepare = None`
 * `if prepare is not None: value = prepare(value)`   (an exception of the preparer propagates)
-* `elif value is MISSING and constructor is not None: value = constructor()` -/
+* `elif value is MISSING and constructor is not None: value = constructor()`   (which may raise as well)
+
+Which values reach the preparer is decided by the two `is` tests above and by nothing else: `None`, `False`, `0`,
+`""`, `[]` are real values and are prepared like any other. -/
 def prepareAttrValue (w : World Val) (c : Cfg) (v : Val) : Except Err Val :=
   if v = w.unchanged then .ok w.unchanged
   else
     match (if v ≠ w.missing ∧ v ≠ w.empty then (if c.hasPreparer then w.preparer v else .ok v)
            else .ok w.missing) with
     | .error e => .error e
-    | .ok value => .ok (if value = w.missing then w.construct else value)
+    | .ok value => if value = w.missing then w.construct else .ok value
 
 /-- Lines 253–277 of `spec_property.__get__`: no getter → AttributeError; the
 getter's exception (AttributeError re-raised as NestedAttributeError when
@@ -266,6 +270,125 @@ def run (w : World Val) (c : Cfg) : Ghost Val → List (Op Val) → Ghost Val ×
     (rest.1, r.2 :: rest.2)
 
 end Spec
+
+/-! ## The instance as a whole: copies and the copy-on-write helpers
+
+A spec-class instance is more than the property's slot: the copy-on-write helpers
+(`with_<attr>`, `update_<attr>`, `reset_<attr>`, `copy.deepcopy`) produce NEW
+instances through the generated `__deepcopy__` (`DeepCopyMethod.deepcopy`,
+`methods/core.py`), which walks `self.__dict__` entry by entry — the slot of a
+`spec_property` (its override or cached value) is one of the entries, the state
+the getter reads and the other attributes are the others. `Obj` adds the
+instance-dict entry of ONE other managed attribute `y` to the protocol state;
+`OOp` adds the operations that replace the instance by a copy. -/
+
+/-- The other attribute `y` of the host (`y: int = 0` on every decorated class). -/
+structure Other (Val : Type) where
+  dflt      : Val          -- the class-level default (`reset_y()` / construction)
+  construct : Val          -- `attr_spec.constructor()` of `y` (what MISSING / EMPTY become)
+  conforms  : Val → Bool   -- `check_type(value, <type of y>)`
+
+structure Obj (Val : Type) where
+  st    : St Val
+  other : Option Val       -- `instance.__dict__.get("y")`
+  deriving DecidableEq, Repr
+
+/-- A fresh instance: `y` has its default on a spec class (the generated `__init__` stores it),
+and does not exist on a plain class. -/
+def Obj.init (c : Cfg) (y : Other Val) : Obj Val :=
+  ⟨St.init, if c.onSpecClass then some y.dflt else none⟩
+
+inductive OOp (Val : Type)
+  | prop (op : Op Val)     -- an operation of the property protocol on the current instance
+  | copy                   -- `obj = copy.deepcopy(obj)`
+  | withOther (v : Val)    -- `obj = obj.with_y(v)` / `obj.update_y(v)`: helper of ANOTHER attribute
+  | resetOther             -- `obj = obj.reset_y()`
+  | setOther (v : Val)     -- `obj.y = v` (in place)
+  | withSelf (v : Val)     -- `obj = obj.with_x(v)`: copy-on-write assignment of the property
+  | resetSelf              -- `obj = obj.reset_x()`: copy-on-write deletion
+  deriving DecidableEq, Repr
+
+/-- `DeepCopyMethod.deepcopy`: `new = cls.__new__(cls)`, then for EVERY entry of `self.__dict__`
+`new.__dict__[attr] = protect_via_deepcopy(value, memo)` — the slot of the property, the state the getter reads, the
+accessor log and `y` alike (no entry is `do_not_copy`, none is a bound method, the class is not `do_not_copy`).
+Written entry by entry on purpose. -/
+def deepcopyObj (o : Obj Val) : Obj Val :=
+  { st := { slot := o.st.slot, under := o.st.under, log := o.st.log }, other := o.other }
+
+/-- `prepare_attr_value` for `y` (no preparer): UNCHANGED stays, MISSING / EMPTY are constructed. -/
+def prepareOther (w : World Val) (y : Other Val) (v : Val) : Val :=
+  if v = w.unchanged then v else if v = w.missing ∨ v = w.empty then y.construct else v
+
+/-- `mutate_attr(obj, "y", value, inplace)` on a spec-class instance: a sentinel returns `obj` itself; an
+ill-typed value raises TypeError before anything is copied; otherwise the instance (or its deep copy) gets
+the value. Third component: the result is a NEW instance. -/
+def mutateOther (w : World Val) (y : Other Val) (o : Obj Val) (v : Val) (inplace : Bool) :
+    Obj Val × Out Val × Bool :=
+  if isSentinel w v then (o, .done, false)
+  else if !y.conforms v then (o, .err .typeError, false)
+  else if inplace then ({ o with other := some v }, .done, false)
+  else ({ deepcopyObj o with other := some v }, .done, true)
+
+/-- `obj.with_x(v)` where `x` is the property: `WithAttrMethod.with_attr` → `prepare_attr_value` →
+`mutate_attr(inplace=False)`: sentinel → `obj` itself; ill-typed → TypeError; else `copy.deepcopy(obj)` and the raw
+`setattr` on the copy, which reaches `__set__`; if that raises, the exception propagates and the caller is left with
+the original. -/
+def withSelf (w : World Val) (c : Cfg) (o : Obj Val) (v : Val) : Obj Val × Out Val × Bool :=
+  match prepareAttrValue w c v with
+  | .error e => (o, .err e, false)
+  | .ok v' =>
+    if isSentinel w v' then (o, .done, false)
+    else if !w.conforms v' then (o, .err .typeError, false)
+    else
+      let o' := deepcopyObj o
+      match pset c o'.st v' with
+      | (st', .done) => ({ o' with st := st' }, .done, true)
+      | (_, out) => (o, out, false)
+
+/-- `obj.reset_x()`: `copy.deepcopy(obj)`, then `delattr(copy, "x")` (→ `__delete__`, the attribute being masked by
+the descriptor); an exception propagates. -/
+def resetSelf (c : Cfg) (o : Obj Val) : Obj Val × Out Val × Bool :=
+  let o' := deepcopyObj o
+  match pdelete c o'.st with
+  | (st', .done) => ({ o' with st := st' }, .done, true)
+  | (_, out) => (o, out, false)
+
+/-- One operation on the current instance: the instance afterwards (a new one when the third component says so;
+the old one then still exists, unchanged — the model is pure), and the result. The helpers of `y` exist on
+spec-class instances only, those of `x` only where `x` is a managed attribute (otherwise: AttributeError from the
+attribute lookup). -/
+def ostep (w : World Val) (c : Cfg) (y : Other Val) (o : Obj Val) : OOp Val → Obj Val × Out Val × Bool
+  | .prop op => let r := step w c o.st op; ({ o with st := r.1 }, r.2, false)
+  | .copy => (deepcopyObj o, .done, true)
+  | .withOther v =>
+    if c.onSpecClass then mutateOther w y o (prepareOther w y v) false else (o, .err .attributeError, false)
+  | .resetOther =>
+    -- `copy.deepcopy(self)`, then `delattr(copy, "y")`: `DelAttrMethod` stores the (prepared) default
+    if c.onSpecClass then ({ deepcopyObj o with other := some y.dflt }, .done, true)
+    else (o, .err .attributeError, false)
+  | .setOther v =>
+    if c.onSpecClass then mutateOther w y o (prepareOther w y v) true
+    else ({ o with other := some v }, .done, false)      -- plain class: ordinary instance attribute
+  | .withSelf v =>
+    if c.onSpecClass && c.managed then withSelf w c o v else (o, .err .attributeError, false)
+  | .resetSelf =>
+    if c.onSpecClass && c.managed then resetSelf c o else (o, .err .attributeError, false)
+
+def orun (w : World Val) (c : Cfg) (y : Other Val) : Obj Val → List (OOp Val) → Obj Val × List (Out Val)
+  | o, [] => (o, [])
+  | o, op :: ops =>
+    let r := ostep w c y o op
+    let rest := orun w c y r.1 ops
+    (rest.1, r.2.1 :: rest.2)
+
+/-- What an instance-level operation is in terms of the property protocol: operations of the protocol themselves,
+the copy-on-write forms of assignment and deletion (where they exist), and nothing at all for copies and for
+everything that concerns another attribute. -/
+def project (c : Cfg) : OOp Val → Option (Op Val)
+  | .prop op => some op
+  | .withSelf v => if c.onSpecClass && c.managed then some (.assign v) else none
+  | .resetSelf => if c.onSpecClass && c.managed then some .delete else none
+  | _ => none
 
 /-! ## Where the property lives: class layouts
 
